@@ -25,6 +25,7 @@ var outsideEntries = map[string]outsideEntry{
 	"invalid.sh": {"file", 0o755, 2},
 	"noexec.sh":  {"file", 0o644, 0},
 	"dir":        {"dir", 0, 0},
+	"nobind.sh":  {"file", 0o755, 11}, // a valid configuration without any binding (shape 1)
 }
 
 func buildOutside(dir, logPath string) error {
@@ -40,7 +41,9 @@ func buildOutside(dir, logPath string) error {
 			continue
 		}
 		var b *Beh
-		if e.code != 0 {
+		if e.code >= 10 {
+			b = &Beh{Shape: e.code - 10}
+		} else if e.code != 0 {
 			b = &Beh{Code: e.code}
 		}
 		if err := os.WriteFile(p, []byte(script(logPath, b)), 0o600); err != nil {
@@ -113,7 +116,7 @@ func describe(root []Node, beh []Beh, to string, hops int) (kind string, mode, c
 	}
 	for _, b := range beh {
 		if b.Path == canon {
-			return "file", n.Mode, b.Code, b.Code == 1 && b.Variant%5 >= 3
+			return "file", n.Mode, b.coqCode(), b.Code == 1 && b.Variant%5 >= 3
 		}
 	}
 	return "file", n.Mode, 0, false
@@ -227,7 +230,7 @@ func kindTags(ns []Node, found []string) []string {
 				if n.TKind == "file" && n.TMode&0o111 == 0 {
 					acc["kind:link->file-noexec"] = true
 				}
-				if n.TKind == "file" && n.TCode != 0 {
+				if n.TKind == "file" && (n.TCode == 1 || n.TCode == 2) {
 					acc["kind:link->misbehaving-script"] = true
 				}
 				switch {
